@@ -30,6 +30,16 @@ func c16Source(fault int) string {
 		return "a(\n"
 	case 9: // missing identifier for input marker
 		return "a\n##!=<\n"
+	case 14: // include-except whose EXCLUDE file is missing
+		return "a\n##!> include-except words nosuchexclude\n"
+	case 15: // include file that carries a flags line (must be rejected)
+		return "a\n##!> include withflags\n"
+	case 16: // include-except whose INCLUDE file is missing
+		return "a\n##!> include-except nosuchfile words\n"
+	case 17: // missing include inside an assemble block
+		return "##!> assemble\nx\n##!> include nosuchfile\n##!<\n"
+	case 18: // unknown stored name inside a nested block
+		return "##!> assemble\n##!> assemble\na\n##!=> nosuchname\n##!<\n##!<\n"
 	}
 	return "a\n"
 }
@@ -43,6 +53,7 @@ func VerifC16Fault() {
 	dir := vTempDir()
 	ctxt := c08Context(dir)
 	vWriteFile(dir+"/regex-assembly/include/words.ra", "ls@\ncat@\n")
+	vWriteFile(dir+"/regex-assembly/include/withflags.ra", "##!+ i\nfoo\n")
 	all := vParam("all") != 0 // --all or single-rule mode, and the position of the faulty file, are job parameters
 	pos := vParam("position")
 	good := "a\nb\n"
@@ -67,7 +78,7 @@ func VerifC16Fault() {
 	vWriteFile(dir+"/rules/"+rulesName, rules)
 	for i := 0; i < 3; i++ {
 		src := good
-		if fault <= 9 && ((all && i == pos) || (!all && i == 1)) {
+		if (fault <= 9 || fault >= 14) && ((all && i == pos) || (!all && i == 1)) {
 			src = c16Source(fault)
 		}
 		vWriteFile(dir+"/regex-assembly/"+files[i], src)
